@@ -90,7 +90,7 @@ fn clamp_ints(v: &mut serde_json::Value) {
     }
 }
 
-fn cfg_json(c: &EpCfg) -> serde_json::Value {
+pub fn cfg_json(c: &EpCfg) -> serde_json::Value {
     json!({
         "iws": c.iws.map(|v| v as i64).unwrap_or(65535),
         "conn_win": c.conn_win.map(|v| v as i64).unwrap_or(65535),
